@@ -95,6 +95,7 @@ func (m *Majordomo) Fetch(ctx context.Context, _ string) ([]byte, error) {
 type Node struct {
 	mu    sync.Mutex
 	Fail  bool
+	Kind  string // how it fails: "" an ordinary error, "timeout" an error wrapping context.DeadlineExceeded (the client's own per-call timeout)
 	Regs  [][]*consensusapi.VersionedSignedValidatorRegistration
 	Preps [][]*apiv1.ProposalPreparation
 }
@@ -109,7 +110,7 @@ func (n *Node) SubmitValidatorRegistrations(_ context.Context, regs []*consensus
 	defer n.mu.Unlock()
 	n.Regs = append(n.Regs, regs)
 	if n.Fail {
-		return errors.New("scripted node failure")
+		return n.failure()
 	}
 	return nil
 }
@@ -119,9 +120,16 @@ func (n *Node) SubmitProposalPreparations(_ context.Context, preps []*apiv1.Prop
 	defer n.mu.Unlock()
 	n.Preps = append(n.Preps, preps)
 	if n.Fail {
-		return errors.New("scripted node failure")
+		return n.failure()
 	}
 	return nil
+}
+
+func (n *Node) failure() error {
+	if n.Kind == "timeout" {
+		return fmt.Errorf("failed to call POST endpoint: %w", context.DeadlineExceeded)
+	}
+	return errors.New("scripted node failure")
 }
 
 func (n *Node) Snapshot() ([][]*consensusapi.VersionedSignedValidatorRegistration, [][]*apiv1.ProposalPreparation) {
@@ -132,10 +140,11 @@ func (n *Node) Snapshot() ([][]*consensusapi.VersionedSignedValidatorRegistratio
 
 // Accounts is the accounts / validating accounts provider.
 type Accounts struct {
-	mu    sync.Mutex
-	List  []harness.Acct // validator index = harness.AcctIndex
-	Err   bool
-	Calls atomic.Int64
+	mu         sync.Mutex
+	List       []harness.Acct                         // validator index = harness.AcctIndex
+	ActiveFrom map[phase0.ValidatorIndex]phase0.Epoch // validators not yet active: validating from this epoch on
+	Err        bool
+	Calls      atomic.Int64
 }
 
 // SetErr switches the scripted failure.
@@ -144,7 +153,7 @@ func (a *Accounts) SetErr(v bool) { a.mu.Lock(); a.Err = v; a.mu.Unlock() }
 // SetList replaces the accounts.
 func (a *Accounts) SetList(l []harness.Acct) { a.mu.Lock(); a.List = l; a.mu.Unlock() }
 
-func (a *Accounts) ValidatingAccountsForEpoch(_ context.Context, _ phase0.Epoch) (map[phase0.ValidatorIndex]e2wtypes.Account, error) {
+func (a *Accounts) ValidatingAccountsForEpoch(_ context.Context, epoch phase0.Epoch) (map[phase0.ValidatorIndex]e2wtypes.Account, error) {
 	defer a.Calls.Add(1)
 	a.mu.Lock()
 	defer a.mu.Unlock()
@@ -153,9 +162,22 @@ func (a *Accounts) ValidatingAccountsForEpoch(_ context.Context, _ phase0.Epoch)
 	}
 	out := map[phase0.ValidatorIndex]e2wtypes.Account{}
 	for _, x := range a.List {
+		if from, ok := a.ActiveFrom[harness.AcctIndex(x)]; ok && epoch < from {
+			continue
+		}
 		out[harness.AcctIndex(x)] = x
 	}
 	return out, nil
+}
+
+// SetActiveFrom marks a validator as active only from the given epoch on.
+func (a *Accounts) SetActiveFrom(i phase0.ValidatorIndex, e phase0.Epoch) {
+	a.mu.Lock()
+	if a.ActiveFrom == nil {
+		a.ActiveFrom = map[phase0.ValidatorIndex]phase0.Epoch{}
+	}
+	a.ActiveFrom[i] = e
+	a.mu.Unlock()
 }
 
 func (a *Accounts) ValidatingAccountsForEpochByIndex(ctx context.Context, e phase0.Epoch, idx []phase0.ValidatorIndex) (map[phase0.ValidatorIndex]e2wtypes.Account, error) {
